@@ -124,6 +124,21 @@ Theorem C03_store_masked : forall (A : Type) (zero : A) (scale : A -> A) (data :
 Proof. exact (@lookup_window_masked). Qed.
 Print Assumptions C03_store_masked.
 
+(* The same in the form Spec(input, model input): the model's look-up satisfies the declarative clause
+   Store_Spec (each answer = the stored-channel mask of a window that has the cell-by-cell meaning
+   Window_Spec), at the positions [lpz ids x] = last occurrence of the queried id x in the id vector. *)
+Theorem C03_store_spec : forall (A : Type) (zero : A) (scale : A -> A) (c : Z) (data : list (list A)) (n : Z)
+    (spikes : list spike) (ids q_ids q_ch : list Z),
+  rect c data -> 1 <= n -> Forall (fun sp => chans_ok c (sp_ch sp)) spikes ->
+  Forall (fun x => 0 <= x) ids -> zlen ids = zlen spikes ->
+  Forall (fun x => In x ids) q_ids -> q_ch <> [] -> chans_ok c q_ch -> distinct_real q_ch -> scale zero = zero ->
+  exists out,
+    get_spike_waveforms zero q_ids q_ch
+      (mkstore ids (map sp_ch spikes) (scaled_windows zero scale data n spikes)) n = Some out /\
+    Store_Spec zero scale data n spikes (map (lpz ids) q_ids) q_ch out.
+Proof. exact (@store_meets_spec). Qed.
+Print Assumptions C03_store_spec.
+
 (* TemplateModel.get_waveforms (comparator clause 25).
    Raw data and no store: extract_waveforms on the model's traces at spike_samples[spike_ids] (NumPy indexing:
    negative ids wrap), i.e. one window per queried id in query order; channel_ids=None = all channels. *)
